@@ -345,7 +345,12 @@ impl DefaultModeArgs {
             },
             report: ReportOverlap {
                 commodity: self.report_commodity.clone(),
-                account_overlap: self.accounts.clone(),
+                // `--accounts ""` is the documented way to select all accounts:
+                // an empty pattern is not a selector
+                account_overlap: self
+                    .accounts
+                    .as_ref()
+                    .map(|accs| accs.iter().filter(|a| !a.is_empty()).cloned().collect()),
                 group_by: self.group_by.clone(),
             },
             target: TargetOverlap {
